@@ -18,7 +18,7 @@ claim('C04',
       "DESIGN.md section 5, C04")
 claim('C05',
       SCOPE + "Proved: MemoryFS exists/metadata/open_file/read_dir all read the same abstraction; MemoryFS::read_dir (rule R19, loop invariant over HashMap::iter) lists exactly the bare child names, each once, errs on files and missing paths; VfsPath::is_file/is_dir = exists && type; VfsPath::read_dir yields exactly parent + '/' + name for the backend's listing; AltrootFS::read_dir lists exactly the children of P + q (bare names); OverlayFS::read_dir succeeds only on a path served as a directory; WalkDirIterator::next is proved as a step contract (yields the head of the current listing, pushes it iff it is a directory, None only when listing and stack are empty, error items carry the entry's path).",
-      "Not proved: the global traversal statement (every descendant exactly once, directory before contents) - only the step contract; OverlayFS::read_dir union contents. Iterator adapters are replaced by eager stand-ins (rule R8).",
+      "Not proved: the global traversal statement (every descendant exactly once, directory before contents) - only the step contract. OverlayFS::read_dir lists exactly the merged children minus marked names (overlay.read_dir.union, see C09). Iterator adapters are replaced by eager stand-ins (rule R8).",
       "DESIGN.md section 5, C05")
 claim('C06',
       SCOPE + "Complete functional proof of join_internal (total, rejects exactly trailing slash with length > 1, canonical result equal to the lexical resolution join_spec, '..' at root stays, leading '/' restarts, multi-byte safe char boundaries), parent_internal = parent_spec, filename_internal = filename_spec, extension_internal = ext_spec, "
@@ -55,7 +55,7 @@ claim('C08',
 claim('C09',
       SCOPE + "Read side proved: read_path returns the path in the first layer that has the entry iff no marker hides it (serving layer), is total for backends that do not fail, and its fallback branch is dead code; exists = visible (exact for reliable layers, Ok(true) always sound); metadata and open_file report the serving layer's entry and bytes; append_file continues the upper copy and writes through the upper handle. "
       "Write-side clauses taken verbatim from the property text (create over a lower-only entry must fail, remove_dir with lower children must fail, type checks on remove, set_*_time on lower-only entries) are refuted by the current code: each is reproduced on the real crate (replay/src/bin/findings.rs) and reported as KNOWN-FINDING; they are checked on every run in isolated twin functions so any other breach still alarms.",
-      "read_dir union semantics (children of all layers minus markers) is not proved beyond observer/frame/hidden-bookkeeping; known findings are listed in known_findings.json.",
+      "read_dir union semantics IS proved (overlay.read_dir.union): the listing holds, each exactly once, the names that are a child of the path in some layer that has the path as a directory, minus the names whose marker name_wo sits in the path's whiteout folder, minus '.whiteout' at the root (set-level loop invariants over the HashSet, the loops read through rule R12b). Known findings are listed in known_findings.json.",
       "DESIGN.md section 5, C09")
 claim('C10',
       SCOPE + "Proved: whiteout_path(q) is exactly <upper root>/.whiteout<q>_wo (marker_path) for every canonical q; remove_file/remove_dir leave the marker in place on success and exists/read_path/metadata/open_file treat a marked path as absent; create_dir/create_file remove exactly that marker and leave a fresh empty upper entry; the root listing never shows '.whiteout' (after the fix commit). "
